@@ -652,6 +652,8 @@ pub struct PollRun<F: Family> {
     pub resumed_after_error: u32,
     /// a poll in which the transport reported a transient failure did not return that failure
     pub transient_not_surfaced: Option<String>,
+    /// piece ends (sio::Step::End) after which the caller polled again with the same state
+    pub resumed_after_end: u32,
     /// what the caller-held state holds when the decoder has finished, if it is a Body state:
     /// (bytes received so far, i.e. buf[..idx]; length of the buffer)
     pub final_body: Option<(Vec<u8>, usize)>,
@@ -699,6 +701,9 @@ pub fn dec_poll_styled<F: Family>(
     }
     reader.keep_log = keep_log;
     let pend = reader.pendings.clone();
+    let ends = reader.ends.clone();
+    let mut seen_ends = 0u64;
+    let mut resumed_after_end = 0u32;
     let transients = reader.transients.clone();
     let last_transient = reader.last_transient.clone();
     let mut seen_transients = 0u64;
@@ -722,6 +727,16 @@ pub fn dec_poll_styled<F: Family>(
             let before = pend.get();
             match std::pin::Pin::new(&mut fut).poll(&mut cx) {
                 Poll::Ready(r) => {
+                    // the current piece of the stream ended in this very poll (sio::Step::End): the decoder says "end of
+                    // input"; the caller keeps the state and polls again now that the next piece is there
+                    if ends.get() > seen_ends {
+                        seen_ends = ends.get();
+                        if matches!(&r, Err(e) if F::is_eof(e)) {
+                            resumed_after_end += 1;
+                            continue 'outer;
+                        }
+                        break 'outer r;
+                    }
                     // a transient failure reported by the transport in this very poll (sio::Step::Fail): the
                     // decoder has to hand it on; the caller then polls again with the state it holds
                     if transients.get() > seen_transients {
@@ -797,6 +812,7 @@ pub fn dec_poll_styled<F: Family>(
         reads_at_end: reader.reads_at_end,
         final_state_is_header,
         resumed_after_error,
+        resumed_after_end,
         transient_not_surfaced,
         final_body,
     }
